@@ -816,6 +816,7 @@ pub fn gen_scenario(run_seed: u64, variant: &str, tier: Tier) -> E1Scenario {
         cycles: true,
         plain: rw.chance(1, 3),
         closed_imports: rw.chance(1, 2),
+        cover_fragments: false,
         dirs: vec!["/proj/src".into(), "/proj/src/a".into(), "/proj/src/a/b".into(), "/proj/lib".into()],
     };
     let ops_model = wgen::gen_ops(&mut rw, &schema, &o);
